@@ -18,7 +18,8 @@ import (
 type C07Params struct {
 	Scripts [][]string
 	Tasks   int
-	Body    string // plain, requeue (task 1 queues itself once while running), long (task 1 runs for 2 virtual minutes)
+	Body    string // plain, requeue (task 1 queues itself once while running), long (task 1 runs for 2 virtual minutes), long2 (task 2 does)
+	Serial  bool   // judge "one after the other": no task begins while another one runs, unless the execution-wait limit or a maximum delay has passed
 	Blocker bool   // a blocker task holds the queue until all submissions are in (order clause)
 }
 
@@ -27,7 +28,11 @@ func (p C07Params) Name() string {
 	for _, s := range p.Scripts {
 		ss = append(ss, strings.Join(s, "."))
 	}
-	return fmt.Sprintf("c07/%s/tasks=%d/body=%s/blocker=%v", strings.Join(ss, "|"), p.Tasks, p.Body, p.Blocker)
+	n := fmt.Sprintf("c07/%s/tasks=%d/body=%s/blocker=%v", strings.Join(ss, "|"), p.Tasks, p.Body, p.Blocker)
+	if p.Serial {
+		n += "/serial"
+	}
+	return n
 }
 
 type c07ev struct {
@@ -116,6 +121,12 @@ func VerifC07(p C07Params) *vsched.Scenario {
 						case <-time.After(2 * time.Minute):
 						case <-ctx.Done():
 						}
+					}
+				}
+				if i == 2 && p.Body == "long2" {
+					select {
+					case <-time.After(2 * time.Minute):
+					case <-ctx.Done():
 					}
 				}
 				vsched.Ev(fmt.Sprintf("end:%d", i))
@@ -346,6 +357,47 @@ func c07judge(p C07Params, s *c07state, submitEnd int) {
 			}
 			if !ok {
 				verifFail("submitted-task-is-executed", "lost-"+lastSubOp, "task %d was submitted (%s) and neither cancelled nor withdrawn, but was not executed afterwards within 10 virtual minutes\nlog: %s", ti, lastSubOp, desc())
+			}
+		}
+	}
+	// (g) one after the other: a task begins while another one is running only if that one has exceeded the execution-wait
+	// limit, or the beginning task's own maximum delay has expired (it is then run directly by the schedule handler)
+	if p.Serial {
+		type run struct {
+			task  int
+			begin time.Duration
+		}
+		var running []run
+		for _, e := range s.log {
+			switch e.kind {
+			case "begin":
+				// when did the submission that this run serves enter the queues?
+				sub := time.Duration(-1)
+				for _, c := range s.log {
+					if c.seq > e.seq {
+						break
+					}
+					if c.kind == "call" && c.task == e.task && c07submission(c.op) {
+						sub = c.now
+						if c.op == "s5" || c.op == "s100" {
+							sub = c.at
+						}
+					}
+				}
+				for _, r := range running {
+					if e.now-r.begin < maxExecutionWait && (sub < 0 || e.now < sub+defaultMaxDelay) {
+						verifFail("queue-order", "concurrent-start", "task %d began at %s while task %d (begun at %s) was still running, before the execution-wait limit (%s) and before its own maximum delay (%s after %s) had passed\nlog: %s",
+							e.task, e.now, r.task, r.begin, maxExecutionWait, defaultMaxDelay, sub, c07fmt(s.log))
+					}
+				}
+				running = append(running, run{e.task, e.now})
+			case "end":
+				for i, r := range running {
+					if r.task == e.task {
+						running = append(running[:i], running[i+1:]...)
+						break
+					}
+				}
 			}
 		}
 	}
